@@ -7,6 +7,7 @@
 (*   GlobalInit  initialises any global whose initialiser can run now      *)
 (*   CallStartA  calls start() once every global is initialised            *)
 (*   Describe    prints the case (id, AST, class, expected result) once    *)
+(*   DescribeNotRun  the same for planted ill-typed programs / unspecified  *)
 (* Invariants: no global is read or assigned before it is initialised,     *)
 (* the strict semantics never gets stuck otherwise, every complete         *)
 (* behaviour ends in one of Outcomes(pr) (the recursive definition and the *)
@@ -14,7 +15,7 @@
 (* confluent, a behaviour that cannot continue belongs to a cyclic program *)
 (* and a cyclic program never completes, every position case is confluent. *)
 (***************************************************************************)
-EXTENDS SyltInit, Json, IOUtils
+EXTENDS SyltTypeOrder, Json, IOUtils
 
 VARIABLES fam, id, pr, S, done, pc, exp
 vars == <<fam, id, pr, S, done, pc, exp>>
@@ -25,6 +26,7 @@ MinN == EnvInt("MINN", 1)
 Mod4 == EnvInt("MOD", 1)        \* sampling modulus for the largest size only
 Seed == EnvInt("SEED", 1)
 WithPos == EnvInt("POS", 1) = 1
+WithTypes == EnvInt("TYPES", 1) = 1
 
 Cases == CasesOf(MinN, MaxN, Mod4, Seed)
 
@@ -33,12 +35,23 @@ ASSUME \A n \in 1..2 : \A q \in Universe(n) : WellFormed(q) /\ Sorted(q)
 ASSUME \A q \in Landmarks : Len(q) = 4 /\ WellFormed(q) /\ Sorted(q)
 ASSUME Cardinality(Universe(1)) = 6 /\ Cardinality(Universe(2)) = 62
 ASSUME Cardinality(Positions) = Len(PosNames)
+ASSUME Cardinality(TypeShapes) = Len(TypeShapeNames)
+\* every type shape has a good use and at least one planted ill-typed use
+ASSUME \A s \in TypeShapes : Len(TypeShape(s).plants) >= 1
+
+\* programs the order semantics is not run on: planted ill-typed programs (they have to be rejected, they denote
+\* nothing) and the cases whose construct always fails at run time
+NotRun(f, i) == (f = "type" /\ IllTyped(i)) \/ f = "unspec"
 
 Init ==
   /\ \/ fam = "shape" /\ id \in Cases /\ pr = ShapeProg(id)
      \/ WithPos /\ fam = "pos" /\ id \in PosCases /\ pr = PosProg(id)
-  /\ S = S0(pr) /\ done = {} /\ pc = "init"
-  /\ exp = Outcomes(pr)
+     \/ WithPos /\ fam = "unspec" /\ id \in UnspecCases /\ pr = PosProg(id)
+     \/ WithPos /\ fam = "self" /\ id \in SelfCases /\ pr = SelfProg(id)
+     \/ WithTypes /\ fam = "type" /\ id \in TypeCases /\ pr = TypeProg(id)
+  /\ S = S0(pr) /\ done = {}
+  /\ pc = IF NotRun(fam, id) THEN "notrun" ELSE "init"
+  /\ exp = IF NotRun(fam, id) THEN {} ELSE Outcomes(pr)
 
 GlobalInit(i) ==
   /\ pc = "init" /\ S.status = "run" /\ i \in (1..NG(pr)) \ done
@@ -61,7 +74,15 @@ Describe ==
                                 status |-> IF Cardinality(exp) = 1 THEN TheOutcome(exp).status ELSE "-"])>>)
   /\ UNCHANGED <<fam, id, pr, S, done, exp>>
 
-Next == (\E i \in 1..4 : GlobalInit(i)) \/ CallStartA \/ Describe
+DescribeNotRun ==
+  /\ pc = "notrun"
+  /\ pc' = "described"
+  /\ PrintT(<<"REPLAY", ToJson([fam |-> fam, id |-> id, n |-> NG(pr),
+                                class |-> IF fam = "unspec" THEN "unspecified" ELSE "illtyped", nout |-> 0,
+                                tops |-> TopsOf(pr), out |-> <<>>, status |-> "-"])>>)
+  /\ UNCHANGED <<fam, id, pr, S, done, exp>>
+
+Next == (\E i \in 1..6 : GlobalInit(i)) \/ CallStartA \/ Describe \/ DescribeNotRun
 Spec == Init /\ [][Next]_vars
 
 ---------------------------------------------------------------------------
@@ -74,4 +95,7 @@ CyclicNeverCompletes == exp = {} => pc # "ran"
 BlockedOnlyIfCyclic == (pc = "init" /\ done # 1..NG(pr) /\ EnabledSet(pr, done, S) = {}) => exp = {}
 CompleteEndsDone == pc = "ran" => S.status = "done"
 PositionCasesConfluent == fam = "pos" => Cardinality(exp) = 1
+SelfCasesCyclic == fam = "self" => exp = {}
+\* the typing judgement of the specification agrees with the labels of the type family; good uses are confluent
+TypeLabels == fam = "type" => (TypeOk(pr) <=> ~IllTyped(id)) /\ (~IllTyped(id) => Cardinality(exp) = 1)
 =============================================================================
